@@ -15,12 +15,31 @@ CLAIMS = {
     'C02.complete': 'after update() every process is simulated up to the global '
                     'time and nothing is pending',
 }
-GOALS = c01.GOALS
+GOALS = {t: g + ['zero-length call'] for t, g in c01.GOALS.items()}
 STUBS = c01.STUBS
 ASSUMPTIONS = c01.ASSUMPTIONS
 BOUNDS = c01.BOUNDS
 OUTSIDE = c01.OUTSIDE
-jobs = c01.jobs
+
+
+def jobs(tier):
+    """C01's configurations plus zero-length calls (update(0) /
+    run_for(0, force_complete=True) after unforced calls: the way to bring
+    deferred processes up to the clock).  Only C02's statements are claimed
+    for them: such a call re-invokes processes that are already level with the
+    clock with timestep 0 and may emit a second row for the same time, which
+    the statements of C01 / C03 / C12 (intervals of positive length) do not
+    cover."""
+    J = list(c01.jobs(tier))
+    if tier == 'quick':
+        J.append(c01._cfg('zerolen-N2', 2, 3, 3, 'const', 'none', tier,
+                          iv_min=0, IV=2))
+    else:
+        J.append(c01._cfg('zerolen-N2', 2, 3, 3, 'const', 'none', tier,
+                          iv_min=0))
+        J.append(c01._cfg('zerolen-condfresh-N2', 2, 3, 2, 'const', 'fresh',
+                          tier, iv_min=0))
+    return J
 
 
 def len_signature(run, m):
